@@ -78,6 +78,7 @@ import Mahotas.Model.Border
 import Mahotas.Model.C04
 import Mahotas.Generated.Tables
 import Mahotas.Model.C10Misc
+import Mahotas.Model.C10Surf
 namespace Mahotas.C10
 open Mahotas
 
@@ -845,6 +846,6 @@ def handle (a : Args) : String :=
   | k =>
     match Mahotas.C10Misc.handleMisc a with
     | some r => r
-    | none => s!"error=unknown-kind-{k}"
+    | none => (Mahotas.C10Surf.handleSurf a).getD s!"error=unknown-kind-{k}"
 
 end Mahotas.C10
